@@ -263,7 +263,8 @@ def run_merge(shard, mon):
         def hyp(l, r):
             one(l, r, "hypothesis")
 
-        hyp()
+        if not shard.get("_threads"):
+            hyp()
     except ImportError:
         mon.notes["hypothesis"] = "not available"
     mon.sample({"left": {"a": {"b": 1}, "c": 2}, "right": {"a": {"b": {"x": 1}}, "d": [1]}})
